@@ -3,6 +3,7 @@
 import json, sys
 pid, wt = sys.argv[1], sys.argv[2]
 p = next(json.loads(l) for l in open('/verif/properties.jsonl') if json.loads(l)['id'] == pid)
+cgu = 100 + int(pid[1:]); pidl = pid.lower()
 print(f"""You are testing how well a verification suite detects regressions in the Rust SDK contentauth/c2pa-rs. You work ONLY inside your own scratch git worktree of the repository at {wt} (already created; ALWAYS run cargo with the environment variable `CARGO_TARGET_DIR=/tmp/brk-target` — a shared target directory pre-seeded with compiled dependencies, so builds are incremental; other agents use it too, so cargo may wait for its lock, which is normal; always pass `--offline`; the machine has no network). Do not read or write anything under /verif or /repo, and do not look for existing verification tooling — your change must be independent of it.
 
 The property of the SDK under study:
@@ -19,6 +20,8 @@ For EACH of the two changes deliver, in a directory {wt}/out/<n>/ (n = 1, 2):
   2. A demonstration: a new Rust integration test file `demo.rs` (to be dropped into `sdk/tests/`; keep a copy in out/<n>/) or a small example program, using only the SDK's public API (fixtures are in sdk/tests/fixtures), that PASSES on the unmodified tree and FAILS with your change applied. Run it both ways and keep the two outputs as `demo_without.txt` / `demo_with.txt`.
   3. Evidence that existing tests still pass WITH the change: at least run the unit/integration tests of the modules you touched and closely related ones, e.g. `cargo test --offline -p c2pa --lib <module_path>` and any relevant `--test` targets (and `-p c2patool` / `-p c2pa-c-ffi` if you touched those crates); save the summary lines as `tests_with.txt`. (The full workspace suite takes ~15 minutes; run it if you can afford it — `cargo test --offline -p c2pa --lib` alone is ~5 minutes — otherwise say exactly what you ran. Some tests need the network and fail on the unmodified tree too: compare against the unmodified tree before blaming your change.)
   4. `meta.json`: {{"property": "{pid}", "summary": "...what the change does...", "needs": "...what specific input/sequence/configuration makes it manifest...", "files": [...], "ran": ["commands you ran"]}}.
+
+IMPORTANT about the shared target directory: the `c2pa` artifacts of different worktrees collide there (same artifact hash), so (1) give your builds their own artifact hash by adding `--config profile.dev.package.c2pa.codegen-units={cgu} --config profile.test.package.c2pa.codegen-units={cgu}` to EVERY cargo command, and (2) name your demo test files uniquely when you run them (`sdk/tests/demo_{pidl}_1.rs`, `demo_{pidl}_2.rs`; the copies you deliver are still called demo.rs). Never kill processes you did not start (no pkill by name).
 
 Build hints: first build in the worktree with `cd {wt} && CARGO_TARGET_DIR=/tmp/brk-target cargo build --offline -p c2pa` (incremental thanks to the pre-seeded target dir; if cargo insists on rebuilding everything, let it — about 6–8 minutes). Feature flags: tests for file-based APIs need `--features file_io`. Other agents share this 16-core machine: run at most one cargo command at a time.
 
